@@ -2,7 +2,8 @@
    request 0 (first session, kept):  [ 0 nwrites nedits defers_close_index ]
      -> [ [success op kinds] [error op kinds] ]   kinds: 0 create 1 write 2 edit 3 chmod 4 close 5 remove-dest 6 rename 7 remove-temp
    request 1: one output phase on a described file system
-     [ 1 strategy [dirents] [inodes] pin pd pt it args ]
+     [ 1 strategy [dirents] [inodes] pin pd pt it args [ temp_create_fails os_create_fails os_openfile_fails ] ]
+       the last element (optional) is the environment of the open phase: which fallible calls of WriteAny / New fail in this run
        dirents: [ [path kind arg] ... ]  kind 0 regular file (arg = inode) / 1 symbolic link (arg = target path) / 2 special
        inodes:  [ [ino bytes] ... ]
        strategy 0 whole      args [ is_dash [chunk ...] ]
@@ -15,7 +16,7 @@
        mode: 0 standard output, 1 direct write to a special file (not modelled further), 2 write-rename, 3 in place
        observation: [ dest_class temp_exists input_ok dest_is_link ]  dest_class 0 absent 1 old 2 new 3 neither
        final = observation ++ [ dest bytes ] ; fault n = [ ignored ] ++ observation ++ [ [clean-up kinds] ] *)
-From Relic Require Import Base.Prelude Base.Val Generated.C13_gen C13.Model C13.Fs C13.Strategies.
+From Relic Require Import Base.Prelude Base.Val Generated.C13_gen C13.Model C13.Fs C13.Stage C13.Strategies.
 
 Definition kind (o : op) : Z :=
   match o with CreateTemp => 0 | Write _ => 1 | Edit _ => 2 | Chmod => 3 | CloseF => 4 | RemoveDest => 5 | Rename => 6 | RemoveTemp => 7 end.
@@ -38,7 +39,7 @@ Variables (pin pd pt : path) (it iin : ino) (s0 : fsys).
 Definition sop_kind (o : sop) : list Z :=
   match o with
   | SCreate _ _ => [0; 0]
-  | SWrite i d => [if i =? it then 1 else 18; zlen d]
+  | SWrite i d => [if i =? it then 1 else 28; zlen d]
   | SCopy src _ off n => [8; zlen (zslice off (off + n) (idata s0 src))]
   | SPWrite i _ d => [if i =? it then 2 else 19; zlen d]
   | STrunc i n => [if i =? it then 9 else 20; n]
@@ -46,6 +47,7 @@ Definition sop_kind (o : sop) : list Z :=
   | SRename _ _ => [6; 0]
   | SUnlink p => [if p =? pt then 7 else 5; 0]
   | SStdout d => [17; zlen d]
+  | SOpen _ _ _ _ => [18; 0]
   end.
 Definition opt_eqb (a b : option bytes) : bool :=
   match a, b with Some x, Some y => bytes_eqb x y | None, None => true | _, _ => false end.
@@ -55,11 +57,15 @@ Definition observe (new : option bytes) (s : fsys) : list val :=
    of_bool (match dirent s pt with Some _ => true | None => false end);
    of_bool (bytes_eqb (idata s iin) (idata s0 iin) && opt_eqb (sread s pin) (if pin =? pd then sread s pin else sread s0 pin));
    of_bool (match dirent s pd with Some (ELink _) => true | _ => false end)].
-Definition report (mode : Z) (accepted : bool) (pl : list pstep) : val :=
+(* a call that fails by itself and whose failure the code turns into "go on" has not happened: no effect in the states reported *)
+Definition neutralize (pl : list pstep) : list pstep :=
+  map (fun st => if p_natfail st && negb (is_abort (p_onerr st)) then mkP (SNop 0) Ignore [] false else st) pl.
+Definition report (mode : Z) (accepted : bool) (pl0 : list pstep) : val :=
+  let pl := neutralize pl0 in
   let done := outcome pl s0 in
   let new := if accepted then Some (idata (srun (ops_of pl) s0) it) else sread (srun (ops_of pl) s0) pd in
   VL [VZ mode;
-      VL (map (fun o => VZs (sop_kind o)) (ops_of pl));
+      VL (map (fun o => VZs (sop_kind o)) (ops_of pl0));
       of_bool accepted;
       VZ (match natural_fault pl with Some n => Z.of_nat n | None => -1 end);
       VL (observe new done ++ [VB (match sread done pd with Some b => b | None => [] end)]);
@@ -67,7 +73,9 @@ Definition report (mode : Z) (accepted : bool) (pl : list pstep) : val :=
       VL (map (fun n => VL ([of_bool (match nth_error pl n with Some st => negb (is_abort (p_onerr st)) | None => false end)]
                             ++ observe new (fault n 0 pl s0)
                             ++ [VZs (match nth_error pl n with Some st => map (fun o => hd 0 (sop_kind o)) (p_cleanup st) | None => [] end)]))
-              (seq 0 (length pl)))].
+              (seq 0 (length pl)));
+      (* a call failed by itself and the code went on (its step is listed among the calls but has no effect in the states) *)
+      of_bool (existsb (fun st => p_natfail st && negb (is_abort (p_onerr st))) pl0)].
 End Obs.
 
 Definition is_complete (o : option nat) : bool := match o with Some 2%nat => true | _ => false end.
@@ -83,6 +91,9 @@ Definition run_new (v : val) : val :=
   let iin := match resolve s0 pin with Some i => i | None => -1 end in
   let a := vnth 8 v in
   let rep := report pin pd pt it iin s0 in
+  let ef := vnth 9 v in
+  let en (is_dash : bool) := mkEnv is_dash (dest_is_special s0 pd) (vbool (vnth 0 ef)) (vbool (vnth 1 ef)) (vbool (vnth 2 ef)) false false false [] in
+  let idest := dest_inode s0 pd 21 in
   let atomic (is_dash : bool) (pl_atomic pl_stdout : list pstep) : val :=
       let m := writeany_strategy is_dash s0 pd in
       if m =? 2 then rep 2 (is_complete (check pt pd it 0 pl_atomic)) pl_atomic
@@ -90,16 +101,16 @@ Definition run_new (v : val) : val :=
       else rep 1 false [] in
   if strat =? 0 then
     let ws := map vb (vl (vnth 1 a)) in
-    atomic (vbool (vnth 0 a)) (whole_plan pt pd it ws)
+    atomic (vbool (vnth 0 a)) (whole_plan_e pt pd it (en (vbool (vnth 0 a))) idest ws)
            (stdout_plan pt pd (map (fun d => (SStdout d, false, false)) ws ++ [(SNop K_CLOSE_IN, true, false)]))
   else if strat =? 1 then
     let d := vb (vnth 1 a) in
-    atomic (vbool (vnth 0 a)) (writefile_plan pt pd it d) (stdout_plan pt pd [(SStdout d, false, false)])
+    atomic (vbool (vnth 0 a)) (writefile_plan_e pt pd it (en (vbool (vnth 0 a))) idest d) (stdout_plan pt pd [(SStdout d, false, false)])
   else if strat =? 2 then
     let ps := map patch_of (vl (vnth 1 a)) in
     let insize := zlen (idata s0 iin) in
     let d := apply_decision_fs pd iin s0 (vbool (vnth 2 a)) (vz (vnth 0 a)) ps insize in
-    let pl := apply_plan pt pd it iin d insize ps in
+    let pl := apply_plan_e pt pd it iin (en false) d insize ps in
     match d with
     | Some _ => rep 3 false pl
     | None => rep 2 (is_complete (check pt pd it 0 pl)) pl
@@ -107,14 +118,14 @@ Definition run_new (v : val) : val :=
   else if strat =? 3 then
     let es := map edit_of (vl (vnth 2 a)) in
     if vbool (vnth 0 a) then rep 3 false (msi_inplace_plan pt pd iin (vz (vnth 1 a)) es [])
-    else let pl := msi_plan pt pd it iin (zlen (idata s0 iin)) (vz (vnth 1 a)) es [] in
+    else let pl := msi_plan_e pt pd it iin (en false) (zlen (idata s0 iin)) (vz (vnth 1 a)) es [] in
          rep 2 (is_complete (check pt pd it 0 pl)) pl
   else if strat =? 5 then
     let pl := pe_sign_plan pt pd it iin (zlen (idata s0 iin)) (map patch_of (vl (vnth 0 a))) (vz (vnth 1 a)) (vz (vnth 2 a)) (vb (vnth 3 a)) in
     rep 2 (is_complete (check pt pd it 0 pl)) pl
   else
     let io := map io_of (vl (vnth 3 a)) in
-    atomic (vbool (vnth 0 a)) (pgp_plan pt pd it (vbool (vnth 1 a)) (vbool (vnth 2 a)) io)
+    atomic (vbool (vnth 0 a)) (pgp_plan_e pt pd it (en (vbool (vnth 0 a))) idest (vbool (vnth 1 a)) (vbool (vnth 2 a)) io)
            (stdout_plan pt pd
               ((if pgp_merges (vbool (vnth 1 a)) (vbool (vnth 2 a)) then [(SNop K_SEEK_IN, false, false)] else []) ++
                map (fun x => match x with MRead => (SNop K_READ_IN, false, false) | MSeek => (SNop K_SEEK_IN, true, false) | MWrite d | MWriteLast d => (SStdout d, false, false) end) io ++
